@@ -1,1 +1,62 @@
-fn main() { println!("placeholder"); }
+pub mod checks;
+pub mod driver;
+pub mod genr;
+pub mod hostile;
+pub mod model;
+pub mod node;
+pub mod rng;
+pub mod run;
+pub mod seam;
+pub mod world;
+
+use std::path::PathBuf;
+
+fn usage() -> ! {
+    eprintln!("usage: mdk-sim <Cxx|selftest> [--tier quick|thorough] [--replay file] [--runs N] [--workers N] [--variant name] [--dump-logs dir]");
+    std::process::exit(2);
+}
+
+fn main() {
+    let argv: Vec<String> = std::env::args().collect();
+    if argv.len() < 2 {
+        usage();
+    }
+    let mut args = driver::Args {
+        tier: std::env::var("VERIF_TIER").unwrap_or_else(|_| "quick".into()),
+        seed: std::env::var("VERIF_SEED").ok().and_then(|s| s.parse().ok()).unwrap_or(driver::DEFAULT_SEED),
+        replay: None,
+        runs_override: None,
+        workers: std::thread::available_parallelism().map(|n| n.get()).unwrap_or(4),
+        root: PathBuf::from(std::env::var("VERIF_ROOT").unwrap_or_else(|_| "/verif".into())),
+        dump_logs: None,
+        only_variant: None,
+    };
+    let mut i = 2;
+    while i < argv.len() {
+        match argv[i].as_str() {
+            "--tier" => { args.tier = argv.get(i + 1).cloned().unwrap_or_else(|| usage()); i += 1; }
+            "--seed" => { args.seed = argv.get(i + 1).and_then(|s| s.parse().ok()).unwrap_or_else(|| usage()); i += 1; }
+            "--replay" => { args.replay = Some(PathBuf::from(argv.get(i + 1).cloned().unwrap_or_else(|| usage()))); i += 1; }
+            "--runs" => { args.runs_override = argv.get(i + 1).and_then(|s| s.parse().ok()); i += 1; }
+            "--workers" => { args.workers = argv.get(i + 1).and_then(|s| s.parse().ok()).unwrap_or_else(|| usage()); i += 1; }
+            "--variant" => { args.only_variant = argv.get(i + 1).cloned(); i += 1; }
+            "--dump-logs" => { args.dump_logs = argv.get(i + 1).map(PathBuf::from); i += 1; }
+            _ => usage(),
+        }
+        i += 1;
+    }
+    // quiet panic hook: library panics are caught and reported as violations
+    std::panic::set_hook(Box::new(|_| {}));
+    seam::warm_up();
+    if let Err(e) = seam::self_test() {
+        eprintln!("HARNESS ERROR: {e}");
+        std::process::exit(2);
+    }
+    let id = argv[1].as_str();
+    let Some(spec) = checks::spec(id) else {
+        eprintln!("HARNESS ERROR: unknown check {id}");
+        std::process::exit(2);
+    };
+    let code = driver::run_check(&spec, &args);
+    std::process::exit(code);
+}
